@@ -12,6 +12,9 @@ type ExploreConfig struct {
 	MaxExecs      int64     // cap (0 = none); hitting it clears Exhaustive
 	Deadline      time.Time // zero = none
 	Setup         func(s *Sched)
+	// ShardI/ShardN split one exploration over processes: shard i explores the subtrees of the
+	// root execution's alternatives k with k%ShardN==i (the root itself is counted by shard 0).
+	ShardI, ShardN int
 }
 
 // Stats is what an exploration covered.
@@ -56,7 +59,10 @@ func Explore(cfg ExploreConfig, body func(), check func(x *Execution) bool) Stat
 			break
 		}
 		x := Run(it.prefix, cfg.Setup, body)
-		st.Execs++
+		isRoot := len(it.prefix) == 0 && cfg.ShardN > 1
+		if !isRoot || cfg.ShardI == 0 {
+			st.Execs++
+		}
 		st.Transitions += int64(x.Transitions)
 		st.Outcomes[x.Outcome]++
 		if len(x.Points) > st.MaxPoints {
@@ -119,6 +125,9 @@ func Explore(cfg ExploreConfig, body func(), check func(x *Execution) bool) Stat
 		}
 		// push in reverse so that the earliest deviation is explored first
 		for i := len(push) - 1; i >= 0; i-- {
+			if isRoot && i%cfg.ShardN != cfg.ShardI {
+				continue
+			}
 			stack = append(stack, push[i])
 		}
 	}
